@@ -8,6 +8,7 @@
 #include <parmcb/parmcb.hpp>
 #include <boost/iterator/function_output_iterator.hpp>
 static bool g_no_emit = false;
+static bool g_log_forest = false;       // add the spanning forest of ForestIndex (public API) to the Call event
 static int g_layouts = 1;               // number of memory layouts (address orders of the edge nodes) per graph
 static std::size_t g_node_size = 0;
 
@@ -59,6 +60,12 @@ struct Runner {
         J c;
         c.s("e", "Call").s("algo", algo).s("wt", wt).i("id", in.id).i("n", in.n).raw("edges", edges_json(in)).i("den", in.den).i("tol", tol);
         if (!meta.empty()) c.raw("meta", meta);
+        if (g_log_forest) {
+            parmcb::ForestIndex<Graph> fi(b.g);
+            std::vector<long> fe;
+            for (size_t i = 0; i < b.edge_of.size(); i++) if (fi.is_on_forest(b.edge_of[i])) fe.push_back((long) i + 1);
+            c.arr("forest", fe);
+        }
         emit(c.str());
         const Graph &g = b.g;
         auto wm = boost::get(boost::edge_weight, g);
@@ -101,6 +108,7 @@ int main(int argc, char **argv) {
     long tol = atol(arg_value(argc, argv, "--tol", "0"));
     int per_call_timeout = atoi(arg_value(argc, argv, "--call-timeout", "60"));
     g_no_emit = has_flag(argc, argv, "--no-emit");
+    g_log_forest = has_flag(argc, argv, "--forest");
     g_layouts = atoi(arg_value(argc, argv, "--layouts", "1"));
     if (!in || !out) { fprintf(stderr, "usage: h_mcb --in F --out F [--algos a,b] [--types double,int] [--start k]\n"); return 2; }
     g_out = fopen(out, start > 0 ? "a" : "w");
